@@ -106,6 +106,38 @@ def ill_formed_edits(toks):
     return out
 
 
+# statements of kinds the token generator does not write (option lists, DDL, DML, CASE / CAST, frames, WITH): written by
+# hand, tokenised by the independent lexer of C09, every round bracket tagged with its partner
+HAND_WRITTEN = [
+    "explain (analyze, verbose) select * from temp", "explain (format json, costs off) select a from t where b = 1", "describe (analyze) select 1",
+    "explain analyze select * from temp where a in (1, 2)",
+    "create table t (a int not null, b varchar(10) default 'x', primary key (a))", "insert into t (a, b) values (1, 'x'), (2, 'y')",
+    "update t set a = (b + 1) * 2 where c in (select d from u)", "delete from t where exists (select 1 from u where u.a = t.a)",
+    "select case when (a > 1) then f(b, (c)) else cast(d as decimal(10, 2)) end from t",
+    "select sum(a) over (partition by b order by c rows between 1 preceding and current row) from t",
+    "with w (x, y) as (select 1, 2) select x from w where y in ((select 3))", "select count(distinct a), coalesce(b, (c)) from (select a, b, c from t) s group by (b)",
+    "select * from a join (b join c on p = q) on r = s", "select a from t where b between (1) and (2) and c like concat('x', (d))",
+]
+
+
+def hand_written_tokens(sql):
+    lx = c09.lex(sql)
+    toks, stack, n = [], [], 0
+    for kind, text, _ in lx or []:
+        if kind in ("ws", "cm"):
+            continue
+        k = "lit" if kind == "lit" else ("id" if kind in ("q", "word") else "p")
+        if text == "(":
+            n += 1
+            stack.append(n)
+            toks.append((text, k, "open:h%d" % n))
+        elif text == ")" and stack:
+            toks.append((text, k, "close:h%d" % stack.pop()))
+        else:
+            toks.append((text, k))
+    return toks
+
+
 def mutate(rng, toks):
     v = [t[0] for t in toks]
     for _ in range(rng.choice([1, 1, 2, 3])):
@@ -232,8 +264,8 @@ def run(ctx, scale=1):
     g = GT.Gen(_random.Random(14014))
     n = (250 if ctx.quick else 800) * (1 if scale == 1 else 2)
     items, metas = [], []
-    for si in range(n):
-        kind, toks = g.statement()
+    stream = [g.statement() for _ in range(n)] + [("hand-written", hand_written_tokens(q)) for q in HAND_WRITTEN]
+    for si, (kind, toks) in enumerate(stream):
         base = GT.text(toks)
         items.append((base, "common"))
         metas.append(("base", si, kind, base))
